@@ -108,6 +108,14 @@ type defaultRule struct {
 	Src  string
 }
 
+// lookup: the contract that applies to callee `key` while a function of package callerPkg is verified.
+func (cs *Contracts) lookup(key, callerPkg string) *FuncContract {
+	if fc, ok := cs.Funcs[callerPkg+"|"+key]; ok {
+		return fc
+	}
+	return cs.Funcs[key]
+}
+
 func newContracts() *Contracts {
 	return &Contracts{
 		Funcs: map[string]*FuncContract{}, GhostVars: map[string]*GhostDecl{}, GhostFields: map[string]*GhostDecl{},
@@ -355,6 +363,16 @@ func (cs *Contracts) loadContractFile(path, pkgPath string, imports map[string]s
 			}
 			cur = &FuncContract{Key: key, PkgPath: pkgPath, Extern: head == "extern" || pkgPath == "", IsIface: isIface,
 				Safe: map[string]bool{}, Loops: map[int]*LoopSpec{}, File: path, Line: i + 1}
+			// an assumed contract written in a package's file applies only while that package's functions are verified
+			if head == "extern" && pkgPath != "" {
+				lk := pkgPath + "|" + key
+				if old, dup := cs.Funcs[lk]; dup {
+					return fmt.Errorf("%s:%d: duplicate extern contract for %s (also %s:%d)", path, i+1, key, old.File, old.Line)
+				}
+				cs.Funcs[lk] = cur
+				lastClause = nil
+				continue
+			}
 			if old, dup := cs.Funcs[key]; dup {
 				// package-level contract overrides a global spec; two in same category is an error
 				if old.PkgPath != "" && pkgPath != "" && old.PkgPath == pkgPath {
